@@ -17,7 +17,8 @@ func init() {
 		Title: "the writer consults the exclusion spec on every key",
 		Text: "In genericWriter.WriteMap's key closure every path returning a writer other than the no-op writer has pushed the key (enterScope) and passed the false edge of excludedFields.Matches(scope); " +
 			"WriteArray pushes the WildCard constant object; the no-op writer's methods contain no call and no store; the writer's own scope stack is balanced (WriteArray/IsKeyExcluded by pairing, " +
-			"WriteMap by the started-flag protocol: exit-if-started before each push, exit-if-started after the callback).",
+			"WriteMap by the started-flag protocol, decided on the CFGs of the key closure and of WriteMap: the flag — a boolean variable or field the closure raises, lowered at the start — is consulted on every path; where it is up the scope is popped exactly once before the push, " +
+			"where it is down nothing is popped and the flag is raised; every path pushes exactly once; after the callback every successful exit pops exactly once where the flag is up and not at all where it is down).",
 		Props:   []string{"C07"},
 		Modules: []string{"v2"},
 		Floor:   map[string]int{"v2": 6},
